@@ -416,6 +416,11 @@ def main_source(decls, builder_flags):
     o.append("fn main() {")
     o.append("    if let Ok(p) = std::env::var(\"REPLAY_FILE\") { replay_main(&p); return; }")
     o.append("    let mut rec = rt::Rec::from_env();")
+    o.append("    if let Ok(w) = std::env::var(\"WITNESS_FILE\") {")
+    for d in decls:
+        o.append("        rt::run_witness::<d%d::%s>(&mut rec, &w);" % (d["id"], d["name"]))
+    o.append("        rec.finish(); return;")
+    o.append("    }")
     for d in decls:
         o.append("    rt::run_one::<d%d::%s>(&mut rec);" % (d["id"], d["name"]))
     o.append("    rec.finish();")
